@@ -658,7 +658,8 @@ def build_facts(model, configs, jobs=None):
     _TASK_STATE.update(model=model, tasks=tasks, core=core_table)
     jobs = jobs or min(16, os.cpu_count() or 1)
     results = None
-    if jobs > 1 and os.environ.get('VERIF_NO_FORK') != '1':
+    from . import par
+    if jobs > 1 and os.environ.get('VERIF_NO_FORK') != '1' and not par._IN_WORKER:
         try:
             import multiprocessing
             ctx = multiprocessing.get_context('fork')
